@@ -1,6 +1,6 @@
 (* Run.v — single entry point of the executable model: one wire value in, one out.
    Decoding of arguments is done here, in Gallina, so that driver.ml has no logic. *)
-From Verif Require Import PyLib ModelTypes Generated_scores Model_scores Spec_scores.
+From Verif Require Import PyLib ModelTypes Generated_scores Model_scores Spec_scores Run_parse.
 Open Scope string_scope.
 
 Definition VresS (r : res string) : V :=
@@ -30,7 +30,10 @@ Definition run (v : V) : V :=
   | VL (VS cmd :: args) =>
     match run_scores cmd args with
     | Some r => r
+    | None =>
+    match run_parse cmd args with
+    | Some r => r
     | None => VErr "unknown-command"
-    end
+    end end
   | _ => VErr "bad-request"
   end.
